@@ -61,6 +61,8 @@ type VerifAdvEnfConn struct {
 	SrcConnID  []byte
 	DestConnID []byte
 	spec       *QUICSpec
+	local      *Stream
+	rd         map[int64]interface{ Read([]byte) (int, error) }
 }
 
 // VerifAdvEnfBuild mirrors UTransport.dial/doDial up to and including the constructor call.
@@ -423,4 +425,143 @@ func VerifAdvEnfServerIssue(c *Conn, n int, retirePriorTo uint64, dropNext int) 
 	}
 	c.scheduleSending()
 	return nil
+}
+
+// ---- round 3: the client's own events (window updates after reads, MAX_STREAMS after a
+// stream is done, RETIRE_CONNECTION_ID, the idle deadline) on the constructed connection ----
+
+// Flush collects the control frames the connection would put into its next packets: it does
+// what sendPackets does before packing (connection-level GetWindowUpdate -> MAX_DATA) and then
+// drains the framer (MAX_STREAM_DATA from the streams' control frame getters, queued
+// MAX_STREAMS, RETIRE_CONNECTION_ID, ...).
+func (v *VerifAdvEnfConn) Flush() (out []wire.Frame) {
+	c := v.C
+	now := monotime.Now()
+	if offset := c.connFlowController.GetWindowUpdate(now); offset > 0 {
+		c.framer.QueueControlFrame(&wire.MaxDataFrame{MaximumData: offset})
+	}
+	for i := 0; i < 200; i++ {
+		fs, _, _ := c.framer.Append(nil, nil, 1200, now, c.version)
+		if len(fs) == 0 {
+			break
+		}
+		for _, f := range fs {
+			out = append(out, f.Frame)
+		}
+	}
+	return out
+}
+
+// ReadStream reads exactly n bytes (which must have arrived contiguously) from stream id as the
+// application would: id 0 is the stream the client opened, 1 and 3 are accepted from the peer.
+func (v *VerifAdvEnfConn) ReadStream(id int64, n int) (got int, err error) {
+	defer func() {
+		if r := recover(); r != nil {
+			err = fmt.Errorf("panic: %v", r)
+		}
+	}()
+	if v.rd == nil {
+		v.rd = map[int64]interface{ Read([]byte) (int, error) }{}
+	}
+	r, ok := v.rd[id]
+	if !ok {
+		ctx, cancel := context.WithTimeout(context.Background(), time.Millisecond)
+		defer cancel()
+		switch id {
+		case 0:
+			if v.local == nil {
+				return 0, errors.New("stream 0 not opened")
+			}
+			r = v.local
+		case 1:
+			s, err := v.C.AcceptStream(ctx)
+			if err != nil {
+				return 0, err
+			}
+			r = s
+		default:
+			for {
+				s, err := v.C.AcceptUniStream(ctx)
+				if err != nil {
+					return 0, err
+				}
+				v.rd[int64(s.StreamID())] = s
+				if int64(s.StreamID()) == id {
+					r = s
+					break
+				}
+			}
+		}
+		v.rd[id] = r
+	}
+	buf := make([]byte, n)
+	for got < n {
+		m, err := r.Read(buf[got:])
+		got += m
+		if err != nil {
+			return got, err
+		}
+	}
+	return got, nil
+}
+
+// OpenLocal opens the client-initiated bidirectional stream 0 (once).
+func (v *VerifAdvEnfConn) OpenLocal() error {
+	if v.local != nil {
+		return nil
+	}
+	s, err := v.C.OpenStream()
+	if err != nil {
+		return err
+	}
+	v.local = s
+	return nil
+}
+
+// EnforcedNow: the limit the connection enforces right now for a counter of the C12 game:
+// 0 connection bytes, 1..3 bytes on stream 0/1/3 (-1 if the stream does not exist), 4/5 highest
+// bidi/uni stream number the peer may open, 6 connection IDs stored (in use + queued).
+func (v *VerifAdvEnfConn) EnforcedNow(k int) int64 {
+	c := v.C
+	switch k {
+	case 0:
+		rw, _, _, _ := flowcontrol.VerifAdvEnfWindows(c.connFlowController)
+		return int64(rw)
+	case 1, 2, 3:
+		// only to be asked for a stream that exists (the lookup would open an incoming one)
+		id := []protocol.StreamID{0, 1, 3}[k-1]
+		rs, err := c.streamsMap.getReceiveStream(id)
+		if err != nil || rs == nil {
+			return -1
+		}
+		g, ok := rs.(interface {
+			verifAdvEnfFC() flowcontrol.StreamFlowController
+		})
+		if !ok {
+			return -1
+		}
+		fc := g.verifAdvEnfFC()
+		rw, _, _, ok := flowcontrol.VerifAdvEnfWindows(fc)
+		if !ok {
+			return -1
+		}
+		return int64(rw)
+	case 4:
+		return v.Enforced().MaxStreamNumBidi
+	case 5:
+		return v.Enforced().MaxStreamNumUni
+	}
+	_, q := v.CIDState()
+	return int64(1 + q)
+}
+
+func (s *ReceiveStream) verifAdvEnfFC() flowcontrol.StreamFlowController { return s.flowController }
+func (s *Stream) verifAdvEnfFC() flowcontrol.StreamFlowController        { return s.receiveStr.flowController }
+
+// IdleDeadline: with the handshake complete, how long after the last activity the run loop
+// destroys the connection with ErrIdleTimeout (nextIdleTimeoutTime - idleTimeoutStartTime), and
+// the 3*PTO floor that enters it.
+func (v *VerifAdvEnfConn) IdleDeadline() (deadline, pto3 time.Duration) {
+	c := v.C
+	return c.nextIdleTimeoutTime().Sub(c.idleTimeoutStartTime()), c.rttStats.PTO(true) * 3
 }
